@@ -65,11 +65,15 @@ class Spec(unit.UnitSpec):
             if rng.random() < 0.1:
                 ops.append("resolve bounds")
             cases.append(Case(ops))
+        if self.which == "32":
+            # chunk-granular SFT map (SFTSparseChunkMap) written by grow_space / cleared by Map32's free, through the
+            # page-resource layer over a private Map32 (component `dpr`)
+            cases += layoutlib.dpr_gen(rng, 250 if tier == "quick" else 10000, debug)
         return cases
 
     def corpus(self, debug):
         if self.which != "64":
-            return [Case(["resolve new", "resolve desc 0", "resolve desc 0x80000000", "resolve desc 0xfffffffffffffff8",
+            return layoutlib.DPR_CORPUS + [Case(["resolve new", "resolve desc 0", "resolve desc 0x80000000", "resolve desc 0xfffffffffffffff8",
                           "resolve desc 0x7fffffffffff", "resolve desc 0x800000000000", "resolve gdesc 0xd0000000"])]
         return [Case(["resolve new", "resolve bounds", "resolve sft 0", "resolve sft 0x20000000000", "resolve sft 0x1ffffffffff8",
                       "resolve sft 0x200000000000", "resolve sft 0xfffffffffffffff8"]),
@@ -81,6 +85,8 @@ class Spec(unit.UnitSpec):
     def oracle(self, case, impl_out):
         """C31's statement on the implementation's outputs: never panics; SFT entry ⇔ inside a space extent; descriptor
         of the space whose extent contains the address."""
+        if case.ops and case.ops[0].startswith("dpr "):
+            return layoutlib.dpr_oracle(case, impl_out, want=("sft", "map32", "dpr"))
         bad = []
         inserted = {}          # space index -> raw
         for op, out in zip(case.ops, impl_out):
@@ -123,19 +129,24 @@ class Spec(unit.UnitSpec):
         return res
 
     def nontrivial(self, case, out):
+        if case.ops and case.ops[0].startswith("dpr "):
+            return layoutlib.dpr_nontrivial(case, out)
         return any(o.startswith("true") or o.startswith("panic") or (o.isdigit() and o != "0") for o in out)
 
     def summarize(self, cases, outs):
-        h, k = {}, {}
+        h, k, pr = {}, {}, {}
+        layoutlib.dpr_summarize(cases, outs, h, pr)
         for c, o in zip(cases, outs):
             for op, out in zip(c.ops, o):
                 t = op.split()
+                if t[0] == "dpr":
+                    continue
                 h[f"{self.variant}:{t[1]}"] = h.get(f"{self.variant}:{t[1]}", 0) + 1
                 if t[1] in ("desc", "gdesc", "sft"):
                     a = int(t[2], 0)
                     b = ("below-heap" if a < SP else "spaces1-15" if a < 16 * SP else "slot16-17" if a <= HEAP_END else "above-heap")
                     k[b] = k.get(b, 0) + 1
-        return {"op": h, "address_class": k}
+        return {"op": h, "address_class": k, "page_resource_sft": pr}
 
 
 META = {
@@ -146,4 +157,5 @@ META = {
 
 
 def main(argv=None):
-    return layoutlib.multi_main([Spec("64"), Spec("32")], argv)
+    return layoutlib.multi_main([Spec("64"), Spec("32")], argv,
+                                extra=layoutlib.gc_part("C31", ("sft:", "vmmap:", "mmap:", "gc:", "correspondence:")))
